@@ -112,6 +112,7 @@ def apply(unit_facts, log=None):
             _compound_assignments(fd, log)
             known = inv["functions"].get(fd["file"], {}).get(fd.get("inv_name", fd["name"]))
             _propagate_new_locals(fd, known, log)
+            _expand_flag_branches(fd, log)
             _compound_assignments(fd, log)
     return log
 
@@ -437,6 +438,94 @@ def _inline_at(fd, bid, pos, cid, callee, serial):
 
 def _locals_fd(fd):
     return _locals(fd)
+
+
+# --------------------------------------------------------------------------
+# N7 a branch on a substituted flag is a branch on the flag's condition
+
+def _expand_flag_branches(fd, log):
+    """`ok = !(a || b); ... if (!ok)` after N4 reads `if (!!(a || b))` in a single block.  The code the tables were
+    confirmed on branches on a and on b in blocks of their own (short-circuit evaluation), and rules that look at the
+    edges of one comparison need that shape: the block is split into one block per leaf condition."""
+    exprs = fd["exprs"]
+    n = 0
+    nxt = [max(b["id"] for b in fd["blocks"]) + 1]
+    new_blocks = []
+
+    def has_subst(i, depth=0):
+        if i is None or i < 0 or depth > 30:
+            return False
+        e = exprs[i]
+        if e.get("subst"):
+            return True
+        return any(has_subst(c, depth + 1) for c in (e.get("c") or []))
+
+    def strip(i):
+        k = 0
+        while i is not None and i >= 0 and k < 50:
+            e = exprs[i]
+            if e["k"] in ("cast", "opaque") and e.get("c"):
+                i = e["c"][0]
+            elif e["k"] == "call" and e.get("callee") == "__builtin_expect" and e.get("c"):
+                i = e["c"][0]
+            else:
+                return i
+            k += 1
+        return i
+
+    BOOLOPS = ("&&", "||", "<", ">", "<=", ">=", "==", "!=")
+
+    def zero_test(e):
+        """(operand, negated) for `x == 0` / `0 == x` / `x != 0` when x is itself a truth value."""
+        if e["k"] == "bin" and e["op"] in ("==", "!="):
+            for a, b in ((e["c"][0], e["c"][1]), (e["c"][1], e["c"][0])):
+                be = exprs[strip(b)]
+                if be.get("v") == 0 and be["k"] in ("int", "cast"):
+                    ae = exprs[strip(a)]
+                    if (ae["k"] == "un" and ae["op"] == "!") or (ae["k"] == "bin" and ae["op"] in BOOLOPS):
+                        return a, e["op"] == "=="
+        return None
+
+    def composite(i):
+        e = exprs[strip(i)]
+        if zero_test(e):
+            return True
+        return (e["k"] == "un" and e["op"] == "!") or (e["k"] == "bin" and e["op"] in ("&&", "||"))
+
+    def build(i, T, F, line):
+        j = strip(i)
+        e = exprs[j]
+        if e["k"] == "un" and e["op"] == "!":
+            return build(e["c"][0], F, T, line)
+        zt = zero_test(e)
+        if zt:
+            return build(zt[0], F, T, line) if zt[1] else build(zt[0], T, F, line)
+        if e["k"] == "bin" and e["op"] == "||":
+            b = build(e["c"][1], T, F, line)
+            return build(e["c"][0], T, b, line)
+        if e["k"] == "bin" and e["op"] == "&&":
+            b = build(e["c"][1], T, F, line)
+            return build(e["c"][0], b, F, line)
+        bid = nxt[0]
+        nxt[0] += 1
+        new_blocks.append({"id": bid, "elems": [j], "succs": [T, F],
+                           "term": {"kind": "IfStmt", "cond": j, "line": e.get("line", line)}})
+        return bid
+    for blk in fd["blocks"]:
+        t = blk.get("term")
+        if not t or "cond" not in t or t.get("kind") != "IfStmt" or len(blk["succs"]) != 2 or None in blk["succs"]:
+            continue
+        c = t["cond"]
+        if c is None or c < 0 or not composite(c) or not has_subst(c):
+            continue
+        T, F = blk["succs"]
+        entry = build(c, T, F, t.get("line", 0))
+        blk["succs"] = [entry]
+        blk.pop("term")
+        n += 1
+    if n:
+        fd["blocks"].extend(new_blocks)
+        log.add("N7", "%s(): %d branch(es) on a substituted flag split into their leaf conditions" % (fd["name"], n))
 
 
 # --------------------------------------------------------------------------
